@@ -52,9 +52,9 @@ U("c12_filter_leftmost_longest", ["C12"], "h_filter", ["C12/filter.c"], ["aho-co
 #  each state carries a 256-entry transition array; not registered)
 
 # ---- trie construction: the node array grows while the recursion holds an index into it
-for _kl in (2, 3):
+for _kl in (1, 3):
     U("c12_trie_insert_grows_K%d" % _kl, ["C12", "C01"], "h_trie_insert", ["C12/trie_insert.c"], ["aho-corasick.c"], plain=True, lib=(), kind="bounded",
-      defines=["-DKL=%d" % _kl], bounds={"key bytes": _kl, "second key bytes": 2, "initial capacity": 2, "unwind": 8},
-      cbmc_flags=["--unwind", "8", "--unwinding-assertions"],
-      functions=["trie_new", "trie_insert", "trie_node_insert", "trie_free"], callees={"malloc/realloc/free/memset": "CBMC built-in"}, native=None, min_obligations=20, timeout=300, cost=20,
-      assumptions=[NOFAIL, "the array starts with 2 nodes (trie_new(2)) instead of 256 so that growth happens within a 3-byte key; the growth code is the same"])
+      defines=["-DKL=%d" % _kl], bounds={"key bytes": _kl, "initial size = capacity": 2, "unwind": 6},
+      cbmc_flags=["--unwind", "6", "--unwinding-assertions"],
+      functions=["trie_insert", "trie_node_insert"], callees={"realloc": "contract stub: a block of exactly the requested size, old block released", "memset/calloc/free": "CBMC built-in"}, native=None, min_obligations=20, timeout=300, cost=20,
+      assumptions=[NOFAIL, "the array starts full with 2 nodes instead of 256 so that growth happens within a short key; the growth code is the same"])
